@@ -591,7 +591,10 @@ Definition mark_is_sentinel (text : str) (tms : list tmark) : bool :=
 (* identity / Is-method phase of IsAny against the sentinels, for one node *)
 Definition own_sentinel (e : err) : bool :=
   match e with
-  | Leaf i (LErrString _) => existsb (Pos.eqb i) special_sentinel_oids
+  (* the identity test against the os / context sentinels is subsumed by the
+     mark test ([mark_is_sentinel]): a sentinel object has the sentinel's text and
+     type, and any *errors.errorString with that text matches by mark anyway.  So
+     nothing in this file looks at object identities. *)
   | Leaf _ LDeadline => true
   | Leaf _ (LErrno n) => errno_is_perm n || errno_is_exist n || errno_is_notexist n
   | Leaf _ (LOpaqueErrno _ p) => en_perm p || en_exist p || en_notexist p
